@@ -194,6 +194,37 @@ def build_fn(src_root, d, contract, hint_specs, tailproof, vacuity):
             raise GenError(f"anchor lost: no `loop` with `break <value>` in {d['fn']}")
         subs_done.append(f'break-with-value desugared ({n_done} break statements): loop {{ .. break E; .. }} =====> {{ let mut __brk = None; loop {{ .. {{ __brk = Some(E); break; }} .. }} __brk.unwrap() }}')
     for a_, b_ in d.get('_subs', []):
+        if isinstance(a_, tuple) and a_[0] == '@closurespec':
+            _, hd, pty, rty = a_
+            hits = [k for k, (t, _s) in enumerate(parts) if hd + ' ' in t]
+            if len(hits) != 1 or parts[hits[0]][0].count(hd + ' ') != 1:
+                raise GenError(f"anchor lost: closure `{hd} ..` does not occur exactly once in {d['fn']}")
+            k = hits[0]
+            t = parts[k][0]
+            code = rsparse._scan_mask(t)
+            i0 = t.index(hd + ' ')
+            j0 = i0 + len(hd) + 1
+            depth, j1 = 0, j0
+            while j1 < len(t):
+                if code[j1]:
+                    c = t[j1]
+                    if c in '([{':
+                        depth += 1
+                    elif c in ')]}':
+                        if depth == 0:
+                            break
+                        depth -= 1
+                    elif c == ',' and depth == 0:
+                        break
+                j1 += 1
+            expr = t[j0:j1].strip()
+            if not expr or expr.startswith('{') or '|' in hd[1:-1].replace(' ', '') and ':' in hd:
+                raise GenError(f"unsupported closure form `{hd} {expr[:40]}` in {d['fn']}")
+            pname = hd.strip('|').strip()
+            ann = f"|{pname}: {pty}| -> (o: {rty}) requires {expr} <= {rty}::MAX ensures o == {expr} {{ {expr} }}"
+            parts[k] = (t[:i0] + ann + t[j1:], parts[k][1])
+            subs_done.append(f'closure `{hd} {expr}` annotated with its own body as contract (rule 16): {ann}')
+            continue
         if isinstance(a_, tuple) and a_[0] == '@afterlet':
             # ghost text placed right after the top-level statement `let NAME = ..;` (robust against reordering of later statements)
             def has_top_let(t):
@@ -455,6 +486,10 @@ def generate(template_path, src_root, out_path, vacuity=False):
                         buf_.append(lines[i])
                         i += 1
                     d.setdefault('_subs', []).append((('@afterlet', nm_), '\n'.join(buf_)))
+                elif s2.startswith('//@closure-spec '):
+                    # rule 16: `//@closure-spec |i| usize usize` - the (single) closure `|i| EXPR` gets its own body as contract
+                    hd_, pty_, rty_ = s2[len('//@closure-spec '):].rsplit(' ', 2)
+                    d.setdefault('_subs', []).append((('@closurespec', hd_.strip(), pty_, rty_), ''))
                 elif s2.startswith('//@sub '):
                     a_, b_ = s2[len('//@sub '):].split(' =====> ')
                     d.setdefault('_subs', []).append((a_.strip(), b_.strip()))
